@@ -17,6 +17,14 @@ asyncio's and twisted's own code is never traced (atomic between the scheduling 
 ordered pair -- thorough: triple -- of sizes pushed inside one loop callback, alone and against a pusher), sizes
 around out_buffer_size (lowered to 8): every schedule within the preemption bound is executed and the bytes
 the fake socket received are judged by an independent oracle on tagged messages.
+
+LARGE-message worlds (large_plan): the connection keeps the driver's own out_buffer_size (4096); one thread pushes
+a message of 301 chunks (1.2 MB) -- or 21 chunks behind 250/300 chunks pushed earlier while the peer was taking
+nothing -- and another thread (or the loop thread) pushes a message of one or two chunks; the peer is fast, or
+slow (every sock_sendall completes one loop turn later, i.e. one chunk per turn; twisted: at most 64 KiB per
+doWrite).  Per-execution cost grows with the number of chunks, so here the scheduling points are the hand-over
+primitives only (call_soon_threadsafe, every loop turn, thread start/end), in one configuration additionally
+the first two executions of every source line of the reactor module; preemption bound 1.
 """
 import itertools
 
@@ -40,7 +48,21 @@ META = {
             'alone and once racing a 9-byte message of a pusher thread.  Thorough: <=2 preemptions for every size pair, <=2 '
             'delayed sendalls, 3 pushers over {1,9,17}^3, 2x2 messages, loop-thread pushes and cold starts over {1,9,17}^2; twisted <=3 '
             'preemptions for every pair; one-callback loop-thread pushes: every ordered size triple over {1,7,8,9,17} alone, every pair '
-            'against a pusher of each size in {1,9,17}, every triple over {1,9,17} against a pusher.  Scheduling points: every source line of every function defined in cassandra/io/asyncioreactor.py / '
+            'against a pusher of each size in {1,9,17}, every triple over {1,9,17} against a pusher.  '
+            'LARGE messages (connection keeps the real out_buffer_size 4096; bound on size: 301 chunks = 1 228 801 bytes per message, '
+            '<=322 chunks in flight; any queue/buffer limit above that is out of reach): asyncio, all schedules with <=1 preemption of '
+            '(a) a 301-chunk message of one pusher against a 100-byte message of another, peer fast, scheduling points = hand-over '
+            'primitives + the first 2 executions of every source line of the reactor module per thread; and with scheduling points '
+            'only at the hand-over primitives (call_soon_threadsafe, every loop turn = one ready handle, thread start/end): '
+            '(b) the same pair with a SLOW peer (every sock_sendall completes one loop turn later: one chunk per turn, ~300 turns, '
+            'the small push arriving at every one of them), (c) 301 chunks against a 2-chunk message, slow peer, (d) a 21-chunk '
+            'and a 1-chunk message pushed while 250 chunks of an EARLIER push are still in the write path (peer took nothing until '
+            'the explored phase starts, then slow), (e) two 1-chunk messages of one thread behind 300 earlier chunks, (f) the small '
+            'message pushed by the loop thread (create_task branch) while a pusher\'s 301-chunk message drains slowly; twisted: 1.2 MB '
+            'against 100 bytes, socket takes <=64 KiB per doWrite, <=1 preemption, line-granular as everywhere.  Thorough adds: (a) at '
+            'bound 2 without line points, (a) against a 2-chunk message, slow peer with 2 turns per chunk, (b) with capped line points, '
+            '301 chunks of out_buffer_size 8, (d) with a 2-chunk message / with two earlier messages, the large message pushed by the '
+            'loop thread; twisted with a short write and with a reactor-thread push.  Scheduling points (all other configurations): every source line of every function defined in cassandra/io/asyncioreactor.py / '
             'cassandra/io/twistedreactor.py (selected by file, not by name: push, the coroutines _push_msg/handle_write/handle_read and '
             'any hand-over helper run by the loop thread are all split at line granularity, so a pusher can run between two lines of '
             'loop-side driver code, e.g. between a last emptiness test and the clearing of a wake-up flag) in whichever thread '
@@ -53,12 +75,74 @@ META = {
             'ready handles run FIFO one per step, as _run_once does); twisted reactor replaced by an object implementing '
             'callFromThread/connectTCP/addWriter/removeWriter with mainLoop\'s order (queued thread calls, then doWrite); line '
             'granularity of preemption (DESIGN 3.1); a delayed sock_sendall is modelled as nothing accepted now and everything one loop '
-            'turn later.  asyncore and libev reactors cannot be imported on this interpreter; gevent/eventlet are not event-loop '
+            'turn later; a slow peer is modelled as EVERY sock_sendall completing k loop turns after it was issued (k fixed '
+            'per configuration, not a choice), a stalled peer as sock_sendall not completing before the explored phase starts.  '
+            'In the LARGE-message configurations the driver code between two hand-over primitives is atomic (no line-level '
+            'preemption beyond the first 2 executions of a line where stated).  asyncore and libev reactors cannot be imported on this interpreter; gevent/eventlet are not event-loop '
             'reactors in the sense of the statement and are not installed.',
     'design_ref': 'C11',
 }
 
 S = c11lib.SIZES            # (1, 7, 8, 9, 17)
+R = c11lib.REAL_CHUNK       # the driver's own out_buffer_size (4096)
+BIG = 300 * R + 1           # 301 chunks, 1.2 MB: far more than the reactor's chunk size
+SMALL = 100                 # one chunk
+TWO = R + 1                 # two chunks
+TW_SLOW = 16 * R            # twisted slow peer: at most 64 KiB per doWrite
+
+
+def _large(msgs, cap=0, **kw):
+    """A large-message asyncio world: real out_buffer_size, no delayed-sendall choice (the peer's pace is fixed by
+    slow=), line_cap as given (0: scheduling points only at the hand-over primitives)."""
+    d = {'reactor': 'asyncio', 'msgs': msgs, 'later': 0, 'chunk': R, 'line_cap': cap, 'horizon': 200000}
+    d.update(kw)
+    return d
+
+
+def large_plan(ctx):
+    """Messages of hundreds of chunks against a small push of another thread, fast / slow / previously stalled peer."""
+    out = []
+    G = 'asyncio LARGE '
+    out.append((G + '301-chunk message vs 1-chunk message, fast peer, first 2 executions of every reactor-module line + hand-over '
+                'points, bound 1', _large([[BIG], [SMALL]], cap=2), 1))
+    out.append((G + '301-chunk message vs 1-chunk message, slow peer (1 chunk per loop turn), hand-over points, bound 1',
+                _large([[BIG], [SMALL]], slow=1), 1))
+    out.append((G + '301-chunk message vs 2-chunk message, slow peer, hand-over points, bound 1',
+                _large([[BIG], [TWO]], slow=1), 1))
+    out.append((G + '21-chunk message vs 1-chunk message behind 250 earlier chunks (peer stalled, then slow), hand-over points, bound 1',
+                _large([[20 * R + 1], [SMALL]], prefill=[250 * R], slow=1), 1))
+    out.append((G + 'two 1-chunk messages of one thread behind 300 earlier chunks (peer stalled, then slow), hand-over points, bound 1',
+                _large([[SMALL, SMALL + 1]], prefill=[300 * R], slow=1), 1))
+    out.append((G + '301-chunk message of a pusher vs 1-chunk push from the loop thread, slow peer, hand-over points, bound 1',
+                _large([[BIG]], loop=[SMALL], slow=1), 1))
+    if not ctx.quick:
+        out.append((G + '301-chunk message vs 1-chunk message, fast peer, hand-over points, bound 2', _large([[BIG], [SMALL]]), 2))
+        out.append((G + '301-chunk message vs 2-chunk message, fast peer, first 2 executions of every line, bound 1',
+                    _large([[BIG], [TWO]], cap=2), 1))
+        out.append((G + '301-chunk message vs 1-chunk message, slow peer (1 chunk per 2 loop turns), hand-over points, bound 1',
+                    _large([[BIG], [SMALL]], slow=2), 1))
+        out.append((G + '301-chunk message vs 1-chunk message, slow peer, first 2 executions of every line, bound 1',
+                    _large([[BIG], [SMALL]], cap=2, slow=1), 1))
+        out.append((G + '2401-byte message = 301 chunks of out_buffer_size 8 vs 1-chunk message, slow peer, hand-over points, bound 1',
+                    _large([[300 * c11lib.N + 1], [1]], slow=1, chunk=c11lib.N), 1))
+        out.append((G + '21-chunk message vs 2-chunk message behind 250 earlier chunks, hand-over points, bound 1',
+                    _large([[20 * R + 1], [TWO]], prefill=[250 * R], slow=1), 1))
+        out.append((G + '21-chunk message vs 1-chunk message behind two earlier messages of 125 chunks, hand-over points, bound 1',
+                    _large([[20 * R + 1], [SMALL]], prefill=[125 * R, 125 * R], slow=1), 1))
+        out.append((G + '301-chunk message pushed from the loop thread vs 1-chunk message of a pusher, slow peer, hand-over points, bound 1',
+                    _large([[SMALL]], loop=[BIG], slow=1), 1))
+    if c11lib.TWISTED_ERROR is None:
+        # bound 1 in every large twisted world: a reactor that hands a message over in pieces has hundreds of hand-over
+        # points per push here, and the number of schedules with 2 preemptions grows with the square of that
+        out.append(('twisted LARGE 1.2 MB message vs 100-byte message, slow peer (<=64 KiB per doWrite), bound 1',
+                    {'reactor': 'twisted', 'msgs': [[BIG], [SMALL]], 'partial': 0, 'slow_bytes': TW_SLOW, 'horizon': 200000}, 1))
+        if not ctx.quick:
+            out.append(('twisted LARGE 1.2 MB message vs 100-byte message, slow peer, <=1 short write, bound 1',
+                        {'reactor': 'twisted', 'msgs': [[BIG], [SMALL]], 'partial': 1, 'slow_bytes': TW_SLOW, 'horizon': 200000}, 1))
+            out.append(('twisted LARGE 1.2 MB message of a pusher vs 100-byte push from the reactor thread, slow peer, bound 1',
+                        {'reactor': 'twisted', 'msgs': [[BIG]], 'loop': [SMALL], 'partial': 0, 'slow_bytes': TW_SLOW,
+                         'horizon': 200000}, 1))
+    return out
 
 
 def plan(ctx):
@@ -161,7 +245,7 @@ def plan(ctx):
                             'bound 2, <=1 short write', {'reactor': T, 'msgs': [[9]], 'loop': list(t), 'partial': 1}, 2))
             for a, b, c in itertools.product((1, 9, 17), repeat=3):
                 out.append(('twisted 3 pushers {1,9,17}^3, bound 2', {'reactor': T, 'msgs': [[a], [b], [c]], 'partial': 1}, 2))
-    return out
+    return out + large_plan(ctx)
 
 
 def _short(params):
@@ -171,6 +255,16 @@ def _short(params):
     if params.get('cold'):
         d += ' cold'
     d += ' later<=%d' % params['later'] if 'later' in params else ' short<=%d' % params.get('partial', 0)
+    if params.get('chunk'):
+        d += ' out_buffer_size=%d' % params['chunk']
+    if params.get('prefill'):
+        d += ' earlier%r' % (params['prefill'],)
+    if params.get('slow'):
+        d += ' slow=%d' % params['slow']
+    if params.get('slow_bytes'):
+        d += ' <=%dB/doWrite' % params['slow_bytes']
+    if params.get('line_cap') is not None:
+        d += ' line_cap=%d' % params['line_cap']
     return d
 
 
@@ -224,6 +318,8 @@ def run(ctx):
     if not c11lib.selftest():
         raise HarnessError('C11 oracle self-test failed')
     entries = plan(ctx)
+    for _, params, _ in entries:
+        c11lib.programs_of(params)      # large messages are built once, here, and inherited by the forked workers
     order = ctx.rotate(list(range(len(entries))))
     cfgs = dict((i, (entries[i][1], entries[i][2])) for i in order)
     n = max(1, ctx.nproc)
@@ -261,6 +357,8 @@ def run(ctx):
     ctx.count('states', ctx.counters.get('executions', 0))
     ctx.count('distinct_nontrivial', ctx.counters.get('executions_with_overlapping_pushes', 0))
     ctx.cov['out_buffer_size'] = c11lib.N
+    ctx.cov['out_buffer_size_large_message_configurations'] = R
+    ctx.cov['largest_message_bytes'] = BIG
     ctx.cov['line_granular_files'] = list(c11lib.ASYNCIO_FOCUS_FILES) + list(getattr(c11lib, 'TWISTED_FOCUS_FILES', ()))
     ctx.cov['rule'] = ('evaluations = executions = distinct (configuration, schedule, environment script) triples, every one within the '
                        'group\'s preemption bound, all run to quiescence; states = executions (stateless search); non-trivial = '
@@ -272,6 +370,11 @@ def run(ctx):
     ctx.assume('a sock_sendall that cannot complete at once completes one loop turn later, whole (no other coroutine of the driver '
                'writes to the socket); at most 1 (thorough: 2) such answers per execution')
     ctx.assume('the virtual loops run ready callbacks FIFO like BaseEventLoop._run_once / ReactorBase.runUntilCurrent')
+    ctx.assume('large-message configurations: message size <= 301 chunks of the real out_buffer_size (%d bytes), <=322 chunks in '
+               'flight; scheduling points only at call_soon_threadsafe / loop turn / thread start and end (plus, where stated, the first '
+               '2 executions of every reactor-module line per thread); slow peer = every sock_sendall completes exactly k loop turns '
+               'later (k = 1; thorough also 2), twisted: <=%d bytes per doWrite; a stalled peer resumes when the explored phase starts'
+               % (R, TW_SLOW))
     if c11lib.TWISTED_ERROR is not None:
         ctx.assume('twisted reactor NOT covered: cassandra.io.twistedreactor cannot be imported here (%s)' % c11lib.TWISTED_ERROR)
     else:
